@@ -368,7 +368,7 @@ class C07(SessionProp):
 
 
 T_INB = G.Table([
-    (14, G.o_inpub), (8, G.o_inpub_q2), (10, G.o_inrel), (4, G.o_inpub_cut), (2, G.o_lose_reconnect_persist), (2, G.o_lose_reconnect_clean),
+    (14, G.o_inpub), (8, G.o_inpub_q2), (10, G.o_inrel), (4, G.o_inpub_cut), (2, G.o_arm), (2, G.o_lose_reconnect_persist), (2, G.o_lose_reconnect_clean),
     (1, G.o_handlers), (1, G.o_publish), (1, G.o_subscribe), (1, G.o_fire), (1, G.o_ack_good),
 ])
 
